@@ -309,7 +309,7 @@ func C18(c Ctx) *report.Report {
 	rep := report.New("C18", c.Seed, c.Tier)
 	rng := chain.NewRng(c.Seed + 18)
 	next := 0
-	hs := []History{ScriptF2(&next)}
+	hs := []History{ScriptF2(&next), ScriptReinvestDry(&next), ScriptReinvestSix(&next)} // corpus first
 	o := clpOpts(c, 36, 1400)
 	o.Steps = 30
 	o.Weights = map[int]int{1: 3, 2: 8, 3: 2, 4: 2, 5: 3, 6: 0, 7: 0, 8: 0, 9: 4}
@@ -318,6 +318,7 @@ func C18(c Ctx) *report.Report {
 	hs = append(hs, RunClpHistories(c, rep, rng, o, &next)...)
 	for _, h := range hs {
 		MonPayouts(rep, h)
+		MonUnits(rep, h) // shares are taken of the pool's units: they must be what the providers hold
 		if len(rep.Samples) < 2 && len(h.Steps) > 3 {
 			rep.Sample(replayOf(h, 3))
 		}
